@@ -160,6 +160,52 @@ theorem rename_copy_fits (from_ : CStr) (h : renameSrcFits from_ = true)
   simp only [renameSrc, hs, and_self, ↓reduceIte]
   omega
 
+/-! ### whole histories -/
+
+/-- one efun call of a case: the master policy in force, the files the harness added, the efun and its arguments -/
+structure CallSpec where
+  pol : Policy
+  ex : List CStr
+  efun : String
+  args : List CStr
+  a : CStr
+  b : CStr
+
+def CallSpec.events (c : CallSpec) : List Ev := .call c.efun whoObj c.args :: efunEvents c.pol c.ex c.efun c.a c.b
+
+theorem fold_history : ∀ (cs : List CallSpec) (s : JState), (∀ c ∈ cs, c.efun ∈ efunNames) → s.bad = [] →
+    ((cs.flatMap CallSpec.events).foldl judgeStep s).bad = [] := by
+  intro cs
+  induction cs with
+  | nil => intro s _ h; simpa using h
+  | cons c rest ih =>
+    intro s hall hb
+    rw [List.flatMap_cons, List.foldl_append]
+    apply ih _ (fun d hd => hall d (by simp [hd]))
+    have hc := hall c (by simp)
+    unfold CallSpec.events
+    rw [List.foldl_cons]
+    have hcc : compileCalls.contains c.efun = false := by
+      simp only [efunNames, List.mem_cons, List.not_mem_nil, or_false] at hc
+      rcases hc with h | h | h | h | h | h | h | h | h | h | h | h | h | h | h | h | h | h | h | h | h | h | h | h <;>
+        rw [h] <;> decide
+    exact fold_ok c.efun hcc _ (judgeStep s (.call c.efun whoObj c.args)) (by simpa [judgeStep] using hb) rfl rfl
+      (efun_segOk c.pol c.ex c.efun c.a c.b hc)
+
+/-- **model_satisfies_spec for whole histories**: ANY sequence of file efun calls — any efuns of the table, any
+    arguments, the master policy and the file-system content changing arbitrarily between the calls — yields a model
+    trace the oracle accepts: no approval is carried over from one call to the next (each `call` starts with an empty
+    set of approvals) and every libc call is licensed within its own call. -/
+theorem history_satisfies_spec (cs : List CallSpec) (h : ∀ c ∈ cs, c.efun ∈ efunNames) :
+    judgeEv (cs.flatMap CallSpec.events) = [] := by
+  unfold judgeEv
+  rw [fold_history cs {} h rfl]; rfl
+
+/-- non-vacuity: an approval obtained in one call does not license a libc call of the next -/
+example : judgeEv [.call "read_file" whoObj [str "/d/f"], .valid false (str "/d/f") whoObj "read_file" .ok,
+                   .fs "open" false (str "d/f"),
+                   .call "read_file" whoObj [str "/d/f"], .fs "open" false (str "d/f")] ≠ [] := by decide
+
 /-! ### symbolic links -/
 
 /-- no component climbs -/
